@@ -19,6 +19,9 @@ import tempfile
 import time
 
 
+HOME = os.path.dirname(os.path.dirname(os.path.abspath(__file__)))
+
+
 def sh(cmd, cwd=None, env=None, timeout=1800):
     p = subprocess.run(cmd, shell=True, cwd=cwd, env=env, stdout=subprocess.PIPE, stderr=subprocess.STDOUT, timeout=timeout)
     return p.returncode, p.stdout.decode(errors="replace")
@@ -68,7 +71,7 @@ def main():
             t0 = time.time()
             cenv = dict(os.environ, VERIF_REPO=wt, VERIF_EVIDENCE_DIR=wt + "_tmp/evidence",
                         VERIF_REPLAY_DIR=wt + "_tmp/replays", VERIF_TIER=tier)
-            rc, out = sh("/verif/check %s %s" % (c, tier), env=cenv, timeout=7200)
+            rc, out = sh("%s/check %s %s" % (HOME, c, tier), env=cenv, timeout=7200)
             lines = [l for l in out.splitlines() if l.startswith(("VIOLATION", "  class=", "HARNESS", "DONE", "KNOWN"))]
             caught = rc == 1
             results[c] = {"exit": rc, "caught": caught, "wall_s": round(time.time() - t0, 1),
@@ -81,7 +84,7 @@ def main():
                        "pytest test/arch/mep (280 tests) with the patch",
                        "VERIF_REPO=<worktree> ./check <id> %s" % tier]
         if valid:
-            dst = os.path.join("/verif/seeded", name)
+            dst = os.path.join(HOME, "seeded", name)
             os.makedirs(dst, exist_ok=True)
             shutil.copy(patch, os.path.join(dst, "patch.diff"))
             shutil.copy(demo, os.path.join(dst, "demo.py"))
